@@ -293,3 +293,157 @@ package otr3
 //@   ensures [C16.new.v2] (v == 2 && (int(p) & int(allowV2)) == int(allowV2)) ==> (err == nil && typeis(version, otrV2))
 //@   ensures [C16.new.policy] err == nil ==> ((typeis(version, otrV3) && v == 3 && (int(p) & int(allowV3)) == int(allowV3)) || (typeis(version, otrV2) && v == 2 && (int(p) & int(allowV2)) == int(allowV2)))
 //@   ensures err != nil ==> version == nil
+
+// ---------------------------------------------------------------------------
+// wipe.go, memory_lock.go (C08)
+// ---------------------------------------------------------------------------
+//@ func tryLock
+//@   opaque
+//@   pure
+//@ func tryUnlock
+//@   opaque
+//@   pure
+//@ func tryLockBigInt
+//@   opaque
+//@   pure
+//@ func unsafeWipe
+//@   opaque
+//@   pure
+
+//@ func wipeBytes
+//@   inline
+//@   modifies elems(b)
+//@   ensures [C08.helpers.bytes] zeroed(b)
+//@ func wipeSecretKeyValue
+//@   inline
+//@   modifies elems(k)
+//@   ensures [C08.helpers.secret] zeroed(k)
+//@ func wipeBigInt
+//@   modifies val(k)
+//@   ensures [C08.helpers.bigint] k != nil ==> val(k) == 0
+
+//@ func (*dhKeyPair).wipe
+//@   modifies p.pub, p.priv, val(p.pub), elems(p.priv)
+//@   ensures [C08.helpers.dhpair] p != nil ==> (p.pub == nil && p.priv === nil && zeroed(old(p.priv)) && (old(p.pub) != nil ==> val(old(p.pub)) == 0))
+
+//@ func (*akeKeys).wipe
+//@   modifies k.c, k.m1, k.m2, elems(k.c), elems(k.m1), elems(k.m2)
+//@   ensures [C08.helpers.akekeys] k != nil ==> (k.c === nil && k.m1 === nil && k.m2 === nil && zeroed(old(k.c)) && zeroed(old(k.m1)) && zeroed(old(k.m2)))
+
+//@ func (*ake).wipeGX
+//@   modifies a.xhashedGx, a.encryptedGx, elems(a.xhashedGx), elems(a.encryptedGx)
+//@   ensures [C08.helpers.gx] a != nil ==> (a.xhashedGx === nil && a.encryptedGx === nil && zeroed(old(a.xhashedGx)) && zeroed(old(a.encryptedGx)))
+
+//@ func setBigInt
+//@   requires src != nil
+//@   modifies val(dst)
+//@   ensures [C08.helpers.setbigint] result != nil && fresh(result) && (dst != src ==> val(result) == old(val(src))) && (dst != nil && dst != src ==> val(dst) == 0)
+
+//@ func setSecretKeyValue
+//@   modifies elems(dst)
+//@   ensures [C08.helpers.setsecret] fresh(result) && len(result) == len(src) && zeroed(dst)
+
+// ---------------------------------------------------------------------------
+// key rotation and MAC key disclosure (C04, C08, C09, C19)
+// ---------------------------------------------------------------------------
+//@ func randomInto
+//@   modifies elems(b)
+//@   ensures [C13.rand.into] result == nil || result == errShortRandomRead
+//@ func randSizedSecret
+//@   pure
+//@   ensures [C13.rand.sized] result1 == nil ==> (fresh(result0) && len(result0) == size)
+//@   ensures result1 != nil ==> result0 === nil
+//@   requires size >= 0 && size <= 1048576
+
+//@ func modExpPCT
+//@   requires g != nil
+//@   mayglobal g
+//@   pure
+//@   ensures result != nil && fresh(result) && val(result) == powmod(val(g), nat(bytes(x)), val(pct))
+
+//@ func (*keyManagementContext).generateNewDHKeyPair
+//@   requires k != nil
+//@   modifies k.ourPreviousDHKeys.*, k.ourCurrentDHKeys.*, k.ourKeyID, val(k.ourPreviousDHKeys.pub), elems(k.ourPreviousDHKeys.priv)
+//@   ensures [C13.rand.rotate,C06.rotate.fail,C08.rotate.fail] result != nil ==> (k.ourKeyID == old(k.ourKeyID) && k.ourCurrentDHKeys.pub == old(k.ourCurrentDHKeys.pub) && k.ourCurrentDHKeys.priv === old(k.ourCurrentDHKeys.priv) && k.ourPreviousDHKeys.pub == old(k.ourPreviousDHKeys.pub) && k.ourPreviousDHKeys.priv === old(k.ourPreviousDHKeys.priv))
+//@   ensures [C04.rot.our.new] result == nil ==> (k.ourKeyID == old(k.ourKeyID) + 1 && k.ourPreviousDHKeys.priv === old(k.ourCurrentDHKeys.priv) && k.ourPreviousDHKeys.pub == old(k.ourCurrentDHKeys.pub) && fresh(k.ourCurrentDHKeys.priv) && len(k.ourCurrentDHKeys.priv) == 40 && k.ourCurrentDHKeys.pub != nil && fresh(k.ourCurrentDHKeys.pub))
+//@   ensures [C08.rotate.wipe] result == nil ==> (zeroed(old(k.ourPreviousDHKeys.priv)) && (old(k.ourPreviousDHKeys.pub) != nil ==> val(old(k.ourPreviousDHKeys.pub)) == 0))
+//@   ensures [C10.rotate.pub] result == nil ==> val(k.ourCurrentDHKeys.pub) == powmod(2, nat(bytes(k.ourCurrentDHKeys.priv)), val(pct))
+
+//@ func (*macKeyHistory).addKeys
+//@   requires h != nil
+//@   modifies h.items, elems(h.items)
+//@   ensures [C09.used.add] len(h.items) == len(old(h.items)) + 1
+
+//@ func (*keyManagementContext).revealMACKeys
+//@   requires k != nil
+//@   modifies k.oldMACKeys
+//@   ensures [C09.disclose.all] result === old(k.oldMACKeys) && len(k.oldMACKeys) == 0
+
+//@ func (*keyManagementContext).revealMACKeysForOurPreviousKeyID
+//@   requires k != nil
+//@   modifies k.macKeyHistory.items, elems(k.macKeyHistory.items), k.oldMACKeys, elems(k.oldMACKeys)
+//@   ensures [C09.retire.conserve.our] len(k.oldMACKeys) + len(k.macKeyHistory.items) == len(old(k.oldMACKeys)) + len(old(k.macKeyHistory.items))
+//@   ensures [C09.retire.grow.our] len(k.oldMACKeys) >= len(old(k.oldMACKeys))
+
+//@ func (*keyManagementContext).revealMACKeysForTheirPreviousKeyID
+//@   requires k != nil
+//@   modifies k.macKeyHistory.items, elems(k.macKeyHistory.items), k.oldMACKeys, elems(k.oldMACKeys)
+//@   ensures [C09.retire.conserve.their] len(k.oldMACKeys) + len(k.macKeyHistory.items) == len(old(k.oldMACKeys)) + len(old(k.macKeyHistory.items))
+//@   ensures [C09.retire.grow.their] len(k.oldMACKeys) >= len(old(k.oldMACKeys))
+
+//@ func (*keyManagementContext).rotateOurKeys
+//@   requires k != nil
+//@   modifies k.ourPreviousDHKeys.*, k.ourCurrentDHKeys.*, k.ourKeyID, val(k.ourPreviousDHKeys.pub), elems(k.ourPreviousDHKeys.priv), k.macKeyHistory.items, elems(k.macKeyHistory.items), k.oldMACKeys, elems(k.oldMACKeys)
+//@   ensures [C04.rot.our.noop,C09.retire.our.only] recipientKeyID != old(k.ourKeyID) ==> (result == nil && k.ourKeyID == old(k.ourKeyID) && k.ourCurrentDHKeys.pub == old(k.ourCurrentDHKeys.pub) && k.ourCurrentDHKeys.priv === old(k.ourCurrentDHKeys.priv) && k.ourPreviousDHKeys.pub == old(k.ourPreviousDHKeys.pub) && k.ourPreviousDHKeys.priv === old(k.ourPreviousDHKeys.priv) && k.oldMACKeys === old(k.oldMACKeys) && k.macKeyHistory.items === old(k.macKeyHistory.items))
+//@   ensures [C04.rot.our] (recipientKeyID == old(k.ourKeyID) && result == nil) ==> (k.ourKeyID == old(k.ourKeyID) + 1 && k.ourPreviousDHKeys.priv === old(k.ourCurrentDHKeys.priv) && k.ourPreviousDHKeys.pub == old(k.ourCurrentDHKeys.pub) && fresh(k.ourCurrentDHKeys.priv))
+//@   ensures [C04.rot.our.fail] result != nil ==> (k.ourKeyID == old(k.ourKeyID) && k.ourCurrentDHKeys.priv === old(k.ourCurrentDHKeys.priv) && k.ourPreviousDHKeys.priv === old(k.ourPreviousDHKeys.priv))
+//@   ensures [C09.retire.conserve.rot.our] len(k.oldMACKeys) + len(k.macKeyHistory.items) == len(old(k.oldMACKeys)) + len(old(k.macKeyHistory.items))
+
+//@ func (*keyManagementContext).rotateTheirKey
+//@   requires k != nil
+//@   modifies k.theirKeyID, k.theirCurrentDHPubKey, k.theirPreviousDHPubKey, k.macKeyHistory.items, elems(k.macKeyHistory.items), k.oldMACKeys, elems(k.oldMACKeys)
+//@   ensures [C04.rot.their] senderKeyID == old(k.theirKeyID) ==> (k.theirKeyID == old(k.theirKeyID) + 1 && k.theirPreviousDHPubKey == old(k.theirCurrentDHPubKey) && k.theirCurrentDHPubKey == pubDHKey)
+//@   ensures [C04.rot.their.noop,C09.retire.their.only] senderKeyID != old(k.theirKeyID) ==> (k.theirKeyID == old(k.theirKeyID) && k.theirPreviousDHPubKey == old(k.theirPreviousDHPubKey) && k.theirCurrentDHPubKey == old(k.theirCurrentDHPubKey) && k.oldMACKeys === old(k.oldMACKeys) && k.macKeyHistory.items === old(k.macKeyHistory.items))
+//@   ensures [C09.retire.conserve.rot.their] len(k.oldMACKeys) + len(k.macKeyHistory.items) == len(old(k.oldMACKeys)) + len(old(k.macKeyHistory.items))
+
+// ---------------------------------------------------------------------------
+// messages.go: data message wire format and MAC (C02, C10, C13, C17)
+// ---------------------------------------------------------------------------
+//@ ghostfield macok Bool
+//@ ghostfield mackey BS
+
+//@ define ylen(msg) = old(int(be32(msg, 9)))
+//@ define enclen(msg) = old(int(be32(msg, 21 + ylen(msg))))
+//@ define unsignedLen(msg) = 25 + ylen(msg) + enclen(msg)
+
+//@ func (*dataMsg).deserializeUnsigned
+//@   requires c != nil
+//@   modifies c.flag, c.senderKeyID, c.recipientKeyID, c.y, c.topHalfCtr, c.encryptedMsg, c.serializeUnsignedCache
+//@   ensures [C02.layout.unsigned.len,C10.accept.data.len] result == nil ==> (len(msg) >= 25 && 25 + ylen(msg) <= len(msg) && unsignedLen(msg) <= len(msg))
+//@   ensures [C02.layout.unsigned.ids,C10.accept.data.ids,C17.data.parse.ids] result == nil ==> (c.flag == old(msg[0]) && c.senderKeyID == old(be32(msg, 1)) && c.recipientKeyID == old(be32(msg, 5)))
+//@   ensures [C02.layout.unsigned.y,C10.accept.data.y] result == nil ==> (c.y != nil && val(c.y) == old(nat(bytes(msg[13:13+ylen(msg)]))))
+//@   ensures [C02.layout.unsigned.ctr,C10.accept.data.ctr] result == nil ==> (be64arr(c.topHalfCtr) == old(be64(msg, 13 + ylen(msg))) && be64arr(c.topHalfCtr) != 0)
+//@   ensures [C02.layout.unsigned.enc,C10.accept.data.enc] result == nil ==> (c.encryptedMsg === msg[25+ylen(msg):unsignedLen(msg)])
+//@   ensures [C02.layout.unsigned.cache,C10.accept.data.cache] result == nil ==> (c.serializeUnsignedCache === msg[0:unsignedLen(msg)])
+//@   ensures [C02.layout.short] len(msg) < 25 ==> result != nil
+
+//@ func (*dataMsg).deserialize
+//@   requires c != nil && v != nil
+//@   modifies c.*, elems(c.oldMACKeys)
+//@   ensures [C02.layout.auth,C10.accept.data.mac] result == nil ==> (unsignedLen(msg) + 20 <= len(msg) && c.authenticator === msg[unsignedLen(msg):unsignedLen(msg)+20])
+//@   ensures [C02.layout.auth.cache] result == nil ==> c.serializeUnsignedCache === msg[0:unsignedLen(msg)]
+//@   ensures [C02.layout.auth.ids] result == nil ==> (c.senderKeyID == old(be32(msg, 1)) && c.recipientKeyID == old(be32(msg, 5)) && c.flag == old(msg[0]) && c.y != nil)
+//@   ensures [C02.layout.auth.ctr] result == nil ==> (be64arr(c.topHalfCtr) == old(be64(msg, 13 + ylen(msg))) && be64arr(c.topHalfCtr) != 0)
+//@   ensures [C02.layout.auth.enc] result == nil ==> c.encryptedMsg === msg[25+ylen(msg):unsignedLen(msg)]
+//@ loop (*dataMsg).deserialize #0
+//@   invariant nonglobal(revKeysBytes) && c != nil
+//@   invariant be64arr(c.topHalfCtr) == old(be64(msg0, 13 + ylen(msg0)))
+//@   invariant sbaseSame(c.oldMACKeys, old(c.oldMACKeys)) || fresh(c.oldMACKeys)
+//@   decreases len(revKeysBytes)
+
+//@ func (dataMsg).checkSign
+//@   requires v != nil
+//@   pure
+//@   ghostset macok(nil) = (result == nil)
+//@   ghostset mackey(nil) = bytes(key)
+//@   ensures [C02.checksign] (result == nil) <==> (len(c.authenticator) == 20 && bytes(c.authenticator) == hashval(hmackind(1, bytes(key)), bs_cat(bs_cat(bs_empty(), bytes(header)), bytes(c.serializeUnsignedCache))))
